@@ -435,6 +435,65 @@ def cmdE2e : P String := do
     | _, _ => return s!"DIFF C02 captured-stream-is-not-a-sequence-of-json-objects-each-followed-by-one-nul {feats}"
   return s!"OK {feats}"
 
-def table : List (String × P String) := [("act", cmdAct), ("atoi", cmdAtoi), ("addr", cmdAddr), ("reg", cmdReg), ("client", cmdClient), ("e2e", cmdE2e)]
+/-! ## C10: `abort <registry> <stream> <n> {<offset> <mode>} | {<replies> <log> <released> <probeok>} <ret> <count>` -/
+
+abbrev LogEntry := Bytes × Bytes × List Bool
+
+def logEntryBeq (a b : LogEntry) : Bool := a.1 == b.1 && a.2.1 == b.2.1 && a.2.2 == b.2.2
+
+def isLogPrefix : List LogEntry → List LogEntry → Bool
+  | [], _ => true
+  | _, [] => false
+  | a :: as, b :: bs => a.1 == b.1 && a.2.1 == b.2.1 && isLogPrefix as bs
+
+def cmdAbort : P String := do
+  let reg ← Driver.registryP
+  let stream ← bytes
+  let runs ← listOf (do let o ← nat; let m ← tok; pure (o, m))
+  expect "|"
+  let rec obsP : Nat → P (List (Bytes × List LogEntry × Bool × Bool))
+    | 0 => pure []
+    | k + 1 => do
+      let replies ← bytes
+      let log ← listOf (do let i ← bytes; let m ← bytes; let rs ← listOf bool; pure (i, m, rs))
+      let released ← bool
+      let probe ← bool
+      let r ← obsP k
+      pure ((replies, log, released, probe) :: r)
+  let obs ← obsP runs.length
+  let ret ← tok
+  let count ← nat
+  let mut insideFrame := 0
+  let mut hard := 0
+  for ((off, mode), (replies, log, released, probe)) in runs.zip obs do
+    let pre := stream.take off
+    let (frames, tail) := splitOnNul pre
+    if !tail.isEmpty then insideFrame := insideFrame + 1
+    let t := connLoop reg scriptedBehaviour frames
+    let expLog : List LogEntry := t.dispatched.map fun (i, m, rs) => (i, m, rs.map ActResult.isErr)
+    let where_ := s!"offset={off} mode={mode}"
+    if !probe then return s!"DIFF C10 probe-connection-disturbed {where_}"
+    if !released then return s!"DIFF C10 connection-not-released-after-peer-went-away {where_}"
+    if mode == "half" then
+      let (obsFrames, obsTail) := splitOnNul replies
+      if !obsTail.isEmpty then return s!"DIFF C02 trailing-bytes-without-nul {where_}"
+      let parsed := obsFrames.map readReplyFrame
+      if parsed.any Option.isNone then return s!"DIFF C02 reply-not-a-reply-object {where_}"
+      if !listBeq ReplyFrame.beq (t.frames.map ReplyFrame.sanitize) (parsed.filterMap id) then
+        return s!"DIFF C10 replies-differ-from-model expected={t.frames.length} observed={obsFrames.length} {where_}"
+      if !listBeq logEntryBeq expLog log then
+        return s!"DIFF C10 dispatch-log-differs expected={expLog.length} observed={log.length} {where_}"
+    else
+      hard := hard + 1
+      -- the peer vanished without reading: replies may fail, but nothing beyond the model's dispatches
+      -- (in particular nothing from an incomplete or undecodable frame) may have been dispatched
+      if !isLogPrefix log expLog then
+        return s!"DIFF C10 dispatched-something-the-model-does-not expected-at-most={expLog.length} observed={log.length} {where_}"
+  let feats := s!"nt={if insideFrame > 0 then 1 else 0} offsets={if runs.length > 20 then 21 else runs.length} hard={if hard > 5 then 6 else hard} midframe={if insideFrame > 5 then 6 else insideFrame} len={if stream.length > 1000 then 1001 else stream.length / 100 * 100}"
+  if ret != "nil" then return s!"DIFF C10 serving-call-after-shutdown-{ret} {feats}"
+  if count != 0 then return s!"DIFF C10 active-count-not-zero-at-the-end count={count} {feats}"
+  return s!"OK {feats}"
+
+def table : List (String × P String) := [("act", cmdAct), ("atoi", cmdAtoi), ("addr", cmdAddr), ("reg", cmdReg), ("client", cmdClient), ("e2e", cmdE2e), ("abort", cmdAbort)]
 
 end Driver.Misc
